@@ -80,6 +80,26 @@ def updateFromDict (s : State) (d : Dict) : State :=
     history := match d.hist with | some h => updateAll s.history h | none => s.history
     nDim := match d.nDim with | some n => n | none => s.nDim }
 
+/-! ### the StateManager's own persistence: `from_dict`, `save_state(path, exclude)`, `load_state` -/
+
+/-- `StateManager.from_dict(state_dict)`: `n_dim = state_dict.get("n_dim", 1); instance = cls(n_dim);
+    instance.update_from_dict(state_dict); return instance` -/
+def fromDict (d : Dict) : State :=
+  updateFromDict (init (match d.nDim with | some n => n | none => 1)) d
+
+/-- `for key in exclude: state_dict.pop(key, None)` on the dictionary with the three top-level keys -/
+def excludeDict (ex : List String) (d : Dict) : Dict :=
+  { cur := if ex.contains "_current" then none else d.cur
+    hist := if ex.contains "_history" then none else d.hist
+    nDim := if ex.contains "n_dim" then none else d.nDim }
+
+/-- default of `exclude` in `StateManager.save_state` -/
+def smDefaultExclude : List String := ["pbar", "pool", "distribute"]
+
+/-- the dictionary `StateManager.save_state(path, exclude)` pickles (`_current`, `_history`, `n_dim` by reference:
+    same values as `to_dict`) -/
+def smSaveDict (ex : List String) (s : State) : Dict := excludeDict ex (toDict s)
+
 /-- `required_keys` of `load_sampler_state`, in source order (equality with the regenerated table is
     `Props.C08.C08_defaults_match`) -/
 def defaults : List (Key × Val) :=
@@ -108,6 +128,10 @@ def save (enc : Dict → Bytes) (s : State) : Bytes := enc (toDict s)
 /-- `load_sampler_state`: unpickle (failure → `none`), update in place, apply the defaults -/
 def load (dec : Bytes → Option Dict) (s : State) (b : Bytes) : Option State :=
   (dec b).bind (loadDict s)
+
+/-- `StateManager.load_state(path)`: unpickle, `update_from_dict` (a merge: no defaults loop) -/
+def smLoad (dec : Bytes → Option Dict) (s : State) (b : Bytes) : Option State :=
+  (dec b).map (updateFromDict s)
 
 /-! ### resume prologue and one iteration -/
 
